@@ -1045,8 +1045,10 @@ impl<K: AsRef<Key>> ServerSequence<K> {
                 &variables,
             )
         };
-        self.context.apply_signature(mac.as_ref());
-        let mac = self.key().signature_slice(&mac);
+        // The prior MAC of the next message is the MAC as it goes out on
+        // the wire, i.e., truncated to the signing length.
+        let mac = &mac.as_ref()[..self.key().signing_len()];
+        self.context.apply_signature(mac);
         self.key().complete_message(message, &variables, mac)
     }
 
